@@ -9,7 +9,7 @@ Opaque codecs: base64 and JSON texts are tokens.  b64decode(token) -> the value 
 -> a FRESH COPY of the object the scenario bound to it.  Unknown tokens raise the codec's documented error.
 """
 from __future__ import annotations
-import base64, binascii, json, hmac, hashlib, secrets, zlib, sys, copy, contextlib
+import base64, binascii, json, hmac, hashlib, secrets, zlib, sys, copy, contextlib, os
 from unittest import mock
 
 CUR = None          # the active Env (fake native keys record into it)
@@ -56,6 +56,9 @@ class Opaque:
 
     def __len__(self):
         raise TypeError("length of opaque octets is not known to the glue")
+
+    def __bool__(self):
+        return True                     # outputs of primitives are never empty
 
     def __repr__(self):
         return "Opaque(%s%s)" % (self.kind, "" if self.cut is None else ",cut")
@@ -107,12 +110,13 @@ class Env:
         return tok
 
     def b64decode(self, s, altchars=None, validate=False):
-        key = bytes(s).rstrip(b"=")
-        if key in self.b64:
-            v = self.b64[key]
-            if isinstance(v, BaseException):
-                raise v
-            return v
+        key = s.rstrip(b"=")          # (no bytes(): that would realise a symbolic segment)
+        # equality scan, not a hash lookup: a symbolic segment then forks once per known token instead of being enumerated
+        for tok, v in self.b64.items():
+            if key == tok:
+                if isinstance(v, BaseException):
+                    raise v
+                return v
         for val, tok in self.b64_made:
             if tok == key:
                 return val
@@ -137,11 +141,11 @@ class Env:
         k = s.encode() if isinstance(s, str) else s
         if not isinstance(k, bytes):
             raise TypeError("the JSON object must be str, bytes or bytearray")
-        if k in self.js:
-            f = self.js[k]
-            if isinstance(f, BaseException):
-                raise f
-            return f()
+        for tok, f in self.js.items():
+            if k == tok:
+                if isinstance(f, BaseException):
+                    raise f
+                return f()
         for val, tok in self.js_made:
             if tok.encode() == k:
                 return jcopy(val)
@@ -179,6 +183,12 @@ class Env:
         self.draws.append({"n": n, "value": v, "source": "secrets"})
         return v
 
+    def urandom(self, n):
+        i = len(self.draws)
+        v = bytes([97 + (i % 26)]) * n
+        self.draws.append({"n": n, "value": v, "source": "os.urandom"})
+        return v
+
     # ---- installation
     @contextlib.contextmanager
     def installed(self, extra=()):
@@ -188,7 +198,8 @@ class Env:
         CUR = self
         triples = [(base64, "urlsafe_b64encode", self.urlsafe_b64encode), (base64, "b64decode", self.b64decode),
                    (json, "dumps", self.dumps), (json, "loads", self.loads), (hmac, "new", self.hmac_new),
-                   (hmac, "compare_digest", self.compare_digest), (secrets, "token_bytes", self.token_bytes)]
+                   (hmac, "compare_digest", self.compare_digest), (secrets, "token_bytes", self.token_bytes),
+                   (os, "urandom", self.urandom)]
         ctxs = []
         for p in extra:
             if isinstance(p, tuple):
@@ -308,7 +319,7 @@ class FakeRSAPublic(_FakeBase, _rsa.RSAPublicKey):
         _verify("RSA", self.kid, (_describe_padding(padding), algorithm.name), signature, data)
 
     def encrypt(self, plaintext, padding):
-        ek = Opaque("rsaenc", self.kid, _describe_padding(padding), plaintext)
+        ek = Sized("rsaenc", self._bits // 8, self.kid, _describe_padding(padding), plaintext)
         CUR.rec("rsa_encrypt", key=self.kid, padding=_describe_padding(padding), pt=plaintext, out=ek)
         return ek
 
@@ -345,14 +356,17 @@ class FakeRSAPrivate(_FakeBase, _rsa.RSAPrivateKey):
                 raise ValueError("Decryption failed")
             r["out"] = env.next_cek()
             return r["out"]
-        if isinstance(ciphertext, Opaque) and ciphertext.kind == "rsaenc" and ciphertext.parts[0] == self.kid \
+        if isinstance(ciphertext, Opaque) and ciphertext.kind == "rsaenc" and ciphertext.cut is None and ciphertext.parts[0] == self.kid \
                 and ciphertext.parts[1] == _describe_padding(padding):
             return ciphertext.parts[2]
         raise ValueError("Decryption failed")
 
     def private_numbers(self):
         CUR.rec("private_numbers", key=self.kid)
-        raise NotImplementedError
+        import types as _t
+        return _t.SimpleNamespace(d=secret_int(self.kid, "d"), p=secret_int(self.kid, "p"), q=secret_int(self.kid, "q"),
+                                  dmp1=secret_int(self.kid, "dp"), dmq1=secret_int(self.kid, "dq"), iqmp=secret_int(self.kid, "qi"),
+                                  public_numbers=self._pub.public_numbers())
 
     def private_bytes(self, *a, **k):
         CUR.rec("private_bytes", key=self.kid)
@@ -368,6 +382,19 @@ CURVES = {"P-256": _Curve("secp256r1", 256), "P-384": _Curve("secp384r1", 384), 
           "secp256k1": _Curve("secp256k1", 256)}
 
 
+POINTS = {}
+
+
+def point_of(kid, crv):
+    """public coordinates of a fake EC key: a function of its identity, registered so that importing the exported JWK yields a
+    public key with the same identity"""
+    bits = CURVES[crv].key_size
+    x = int.from_bytes(hashlib.sha256(("x:%s:%s" % (kid, crv)).encode()).digest() * 3, "big") % (1 << (bits - 9))
+    y = int.from_bytes(hashlib.sha256(("y:%s:%s" % (kid, crv)).encode()).digest() * 3, "big") % (1 << (bits - 1))
+    POINTS[(x, y, crv)] = kid
+    return x, y
+
+
 class FakeECPublic(_FakeBase, _ec.EllipticCurvePublicKey):
     def __init__(self, kid="ec", crv="P-256"):
         self.kid, self.crv = kid, crv
@@ -380,7 +407,8 @@ class FakeECPublic(_FakeBase, _ec.EllipticCurvePublicKey):
 
     def public_numbers(self):
         CUR.rec("public_numbers", key=self.kid)
-        return _ec.EllipticCurvePublicNumbers(5, 6, {"P-256": _ec.SECP256R1, "P-384": _ec.SECP384R1, "P-521": _ec.SECP521R1,
+        x, y = point_of(self.kid, self.crv)
+        return _ec.EllipticCurvePublicNumbers(x, y, {"P-256": _ec.SECP256R1, "P-384": _ec.SECP384R1, "P-521": _ec.SECP521R1,
                                                      "secp256k1": _ec.SECP256K1}[self.crv]())
 
     def public_bytes(self, encoding, format):
@@ -407,8 +435,11 @@ class FakeECPrivate(_FakeBase, _ec.EllipticCurvePrivateKey):
         # the real primitive returns a DER signature; the harness supplies r,s through env.ecdsa_rs
         r, s = env.ecdsa_rs
         from cryptography.hazmat.primitives.asymmetric.utils import encode_dss_signature
-        env.rec("sign", family="EC", key=self.kid, params=("ECDSA", signature_algorithm.algorithm.name), msg=data, rs=(r, s))
-        return encode_dss_signature(r, s)
+        der = encode_dss_signature(r, s)
+        params = ("ECDSA", signature_algorithm.algorithm.name)
+        env.rec("sign", family="EC", key=self.kid, params=params, msg=data, rs=(r, s), sig=der)
+        env.signed.append(("EC", self.kid, params, data, der))
+        return der
 
     def exchange(self, algorithm, peer_public_key):
         if not isinstance(peer_public_key, _ec.EllipticCurvePublicKey):
@@ -421,11 +452,17 @@ class FakeECPrivate(_FakeBase, _ec.EllipticCurvePrivateKey):
 
     def private_numbers(self):
         CUR.rec("private_numbers", key=self.kid)
-        raise NotImplementedError
+        import types as _t
+        return _t.SimpleNamespace(private_value=secret_int(self.kid, "d"), public_numbers=self._pub.public_numbers())
 
     def private_bytes(self, *a, **k):
         CUR.rec("private_bytes", key=self.kid)
         return b"PRIV-" + self.kid.encode()
+
+
+def secret_int(kid, member):
+    """distinctive private integer of a fake key (so that its octets can be searched for in public outputs)"""
+    return int.from_bytes(hashlib.sha256(("secret:%s:%s" % (kid, member)).encode()).digest()[:30], "big") | (1 << 239)
 
 
 def _okp_pair(pub_abc, priv_abc, family, can_sign):
@@ -529,11 +566,27 @@ class Sized(Opaque):
     def __len__(self):
         return self.n
 
+    def __bool__(self):
+        return self.n > 0
+
+    def __bytes__(self):
+        """a concrete stand-in of the right length: equal opaque values get equal octets, different ones different octets"""
+        for obj, tok in _BYTES_TABLE:
+            if obj == self:
+                return tok
+        i = len(_BYTES_TABLE)
+        tok = ((b"<%05d>" % i) * (self.n // 7 + 1))[:self.n]
+        _BYTES_TABLE.append((self, tok))
+        return tok
+
     def __getitem__(self, s):
         if isinstance(s, slice):
             a, b, _ = s.indices(self.n)
             return Sized(self.kind, max(0, b - a), *self.parts, cut=(self.cut, a, b))
         raise TypeError("opaque octets cannot be indexed")
+
+
+_BYTES_TABLE = []
 
 
 def _blen(x):
@@ -666,7 +719,7 @@ def fake_aes_key_wrap(wrapping_key, key_to_wrap, backend=None):
     if _blen(key_to_wrap) % 8:
         raise ValueError("The key to wrap must be a multiple of 8 bytes")
     i = len(env.of("wrap"))
-    out = b"WRAPPED-KEY-%02d" % i
+    out = (b"WRAP%04d" % i) + b"w" * _blen(key_to_wrap)        # RFC 3394: 8 octets longer than the wrapped key
     env.rec("wrap", key=wrapping_key, cek=key_to_wrap, out=out)
     return out
 
@@ -850,13 +903,25 @@ class FakeECNumbers:
         r = env.rec("ec_point", x=self.x, y=self.y, crv=name)
         if getattr(env, "epk_invalid", False):
             raise ValueError("Invalid EC key. Point is not on the curve specified.")
-        return FakeECPublic("epk", name)
+        return FakeECPublic(POINTS.get((self.x, self.y, name), "epk"), name)
+
+
+class FakeECPrivateNumbers:
+    def __init__(self, private_value, public_numbers):
+        self.private_value, self.public_numbers = private_value, public_numbers
+
+    def private_key(self, backend=None):
+        env = CUR
+        pub = self.public_numbers.public_key()          # raises ValueError for an invalid point
+        env.rec("ec_private_import", d=self.private_value)
+        return FakeECPrivate("epk", pub.crv)
 
 
 def ec_import_patches():
     import joserfc.rfc7518.ec_key as EK
-    from cryptography.hazmat.primitives.asymmetric.ec import EllipticCurvePublicNumbers
-    out = patch_joserfc_names({"EllipticCurvePublicNumbers": (EllipticCurvePublicNumbers, FakeECNumbers)})
+    from cryptography.hazmat.primitives.asymmetric.ec import EllipticCurvePublicNumbers, EllipticCurvePrivateNumbers
+    out = patch_joserfc_names({"EllipticCurvePublicNumbers": (EllipticCurvePublicNumbers, FakeECNumbers),
+                               "EllipticCurvePrivateNumbers": (EllipticCurvePrivateNumbers, FakeECPrivateNumbers)})
     return out
 
 
@@ -871,7 +936,54 @@ def okp_import_patches():
                 env.rec("okp_point", x=data)
                 if getattr(env, "epk_invalid", False):
                     raise ValueError("An X25519 public key is 32 bytes long")
-                return pub_cls("epk")
+                kid = data[4:].decode() if isinstance(data, bytes) and data.startswith(b"PUB-") else "epk"
+                return pub_cls(kid)
         return Loader
     return [(OK.PUBLIC_KEYS_MAP, "X25519", mk(FakeX25519Public)), (OK.PUBLIC_KEYS_MAP, "X448", mk(FakeX448Public)),
             (OK.PUBLIC_KEYS_MAP, "Ed25519", mk(FakeEd25519Public)), (OK.PUBLIC_KEYS_MAP, "Ed448", mk(FakeEd448Public))]
+
+
+def keygen_patches():
+    """key generation leaves: every generated native key is a fresh fake key, recorded as a draw from the key generator"""
+    import joserfc.rfc7518.ec_key as EK
+    import joserfc.rfc7518.rsa_key as RK
+    import joserfc.rfc8037.okp_key as OK
+    from cryptography.hazmat.primitives.asymmetric.ec import generate_private_key as ec_gen
+    from cryptography.hazmat.primitives.asymmetric.rsa import generate_private_key as rsa_gen
+
+    def fake_ec_gen(curve, backend=None):
+        env = CUR
+        name = {"secp256r1": "P-256", "secp384r1": "P-384", "secp521r1": "P-521", "secp256k1": "secp256k1"}[curve.name]
+        kid = "gen%d" % len(env.draws)
+        env.draws.append({"n": None, "value": kid, "source": "ec.generate_private_key", "curve": name})
+        return FakeECPrivate(kid, name)
+
+    def fake_rsa_gen(public_exponent, key_size, backend=None):
+        env = CUR
+        kid = "gen%d" % len(env.draws)
+        env.draws.append({"n": key_size, "value": kid, "source": "rsa.generate_private_key", "public_exponent": public_exponent})
+        return FakeRSAPrivate(kid, key_size)
+
+    out = []
+    for mod in (EK, RK):
+        if getattr(mod, "generate_private_key", None) is ec_gen:
+            out.append((mod, "generate_private_key", fake_ec_gen))
+        if getattr(mod, "generate_private_key", None) is rsa_gen:
+            out.append((mod, "generate_private_key", fake_rsa_gen))
+
+    def mk(priv_cls, crv):
+        class Gen:
+            @staticmethod
+            def generate():
+                env = CUR
+                kid = "gen%d" % len(env.draws)
+                env.draws.append({"n": None, "value": kid, "source": "okp.generate", "curve": crv})
+                return priv_cls(kid)
+
+            @staticmethod
+            def from_private_bytes(data):
+                return priv_cls("imported")
+        return Gen
+    for crv, cls in (("Ed25519", FakeEd25519Private), ("Ed448", FakeEd448Private), ("X25519", FakeX25519Private), ("X448", FakeX448Private)):
+        out.append((OK.PRIVATE_KEYS_MAP, crv, mk(cls, crv)))
+    return out
